@@ -26,7 +26,13 @@ CRATES = {
             ("src/compression/mod.rs", "mpq/dispatch.rs", "verif_kani_dispatch", ""),
             ("src/compression/algorithms/adpcm.rs", "mpq/adpcm.rs", "verif_kani_adpcm", ""),
             ("src/tables/hash.rs", "mpq/tables_hash.rs", "verif_kani_tables_hash", ""),
+            ("src/compression/algorithms/sparse.rs", "mpq/sparse.rs", "verif_kani_sparse", ""),
         ],
+        # derived copy (scratch only): the sparse codec's source text with Vec<u8> -> bounded-array model BVec
+        "derive": [("src/compression/algorithms/sparse.rs", "gen/sparse_bv.rs",
+                    [(r"\bVec<u8>", "BVec"), (r"\bVec::(with_capacity|new)\b", r"BVec::\1")], "use super::BVec;"),
+                   ("src/compression/algorithms/sparse.rs", "gen/sparse_bvs.rs",
+                    [(r"\bVec<u8>", "BVecS"), (r"\bVec::(with_capacity|new)\b", r"BVecS::\1")], "use super::BVecS;")],
         "prepend": [("src/lib.rs", "#![cfg_attr(kani, feature(read_buf, core_io_borrowed_buf))]\n#![cfg_attr(kani, recursion_limit = \"512\")]")],
     },
     "cdbc": {
@@ -303,6 +309,9 @@ H("C17", "cdbc", _DP, "quick", "C17.d binary-searched key lookup from any state 
   ["parser::RecordSet::get_record_by_key_binary_search"],
   "N records, all u32 keys symbolic (duplicates allowed); sorted_key_indices = any permutation of (key, index) pairs ascending by key; probe key symbolic",
   "N in {2,3,4,5}", assumes=["postcondition of slice::sort_by_key (a key-ascending permutation) instead of executing std's sort"], stubs=[FMT, RS], timeout=900)
+# c17d_sorted_then_both_n{2,3} (harness/cdbc/parser.rs: the REAL create_sorted_key_map, then both lookups) are NOT registered: std's
+# slice::sort_by_key does not finish in CBMC even for 2 elements (n2: memory cap, n3: 30 min time-out); the hashed map that
+# create_sorted_key_map rebuilds stays outside the C17 claim (seeded change C17-sorted-keymap-rebuild is missed for that reason).
 H("C17", "cdbc", _D, "quick", "canary", ["c17_canary"], ["field_parser::parse_field_value"], "vacuity twin", "-", expect="canary", stubs=[FMT, RS])
 H("C05", "cdbc", _D, "quick", "C05.dbc header parsers and string lookups are total (no panic/overflow), derived offsets do not overflow",
   ["c05_dbc_header_total", "c05_dbc_wdb2_header_total", "c05_dbc_wdb5_header_total", "c05_dbc_string_block_total"],
@@ -495,6 +504,36 @@ H("C03", "mpq", _DP, "quick", "C03.e compress(selector) and decompress(selector)
 H("C03", "mpq", _DP, "quick", "C03.e selector byte -> codec mapping", ["c03e_from_flags_total"], ["compression::methods::CompressionMethod::from_flags"],
   "selector u8 symbolic (all 256)", "-", stubs=[FMT])
 H("C03", "mpq", _DP, "quick", "canary", ["c03e_canary"], ["compression::methods::CompressionMethod::from_flags"], "vacuity twin", "-", expect="canary", stubs=[FMT])
+
+# ------------------------------------------------------------------------------- C03.b sparse codec (derived copy with BVec)
+_SP = "verif_kani_sparse"
+BVEC = "derived copy of compression/algorithms/sparse.rs, regenerated from the current sources on every run, with Vec<u8> -> bounded-array model BVec (capacity 40 for inputs up to 16 bytes, 176 for the 138-byte harness; same push/extend_from_slice/resize/len/deref semantics); the function bodies are the repository's text"
+_spfn = ["compression::algorithms::sparse::compress", "compression::algorithms::sparse::decompress"]
+H("C03", "mpq", _SP, "thorough", "C03.b sparse codec: decompress(compress(x), len) == x for EVERY input of the length; header == length; stored form within the encoder's worst-case bound",
+  ["c03b_sparse_roundtrip_n%d" % n for n in (1, 2, 3, 4, 5, 6, 7, 8, 10, 12, 16)], _spfn,
+  "input [u8; N] fully symbolic", "N in {1..8, 10, 12, 16}", stubs=[FMT, BVEC], timeout=1800)
+H("C03", "mpq", _SP, "thorough", "C03.b sparse codec, run boundaries: R non-zero bytes, Z zero bytes, then arbitrary bytes",
+  ["c03b_sparse_roundtrip_run_n20"], _spfn,
+  "R, Z symbolic; all byte values symbolic", "N = 20 with R in 0..=20", stubs=[FMT, BVEC], timeout=3000)
+H("C03", "mpq", _SP, "thorough", "C03.b sparse codec, literal-run boundaries 0x80/0x81/0x82: R non-zero bytes, Z zero bytes, then arbitrary bytes",
+  ["c03b_sparse_roundtrip_run_127_131_n138"], _spfn,
+  "R in 127..=131 and Z symbolic; run bytes 0x55 except positions 0, 1, 126..R (symbolic non-zero); the bytes behind the zero run symbolic", "N = 138; per-loop unwinding bounds (checked by unwinding assertions)",
+  stubs=[FMT, BVEC], timeout=3000, mem_gb=30,
+  unwindset=[(r"sparse_bv::compress$", r"^while pb_in_buffer < pb_in_buffer_end", 8),
+             (r"sparse_bv::compress$", r"^loop \{", 141),
+             (r"sparse_bv::compress$", r"^while number_of_non_zeros > 0x81", 3),
+             (r"sparse_bv::compress$", r"^while number_of_zeros > 0x85", 2),
+             (r"sparse_bv::compress$", r"^$", 5),
+             (r"sparse_bv::decompress$", r"^while pos < data\.len", 14),
+             (r"BVecN::<176>::extend_from_slice", r"", 131),
+             (r"BVecN::<176>::resize", r"", 24),
+             (r"roundtrip_run", r"^while i < N", 140)])
+H("C03", "mpq", _SP, "thorough", "C03.b derivation check: the real (Vec) codec and the derived (BVec) copy agree on the repository's own test vectors",
+  ["c03b_sparse_model_agrees_on_vectors"], _spfn, "concrete vectors", "4 vectors", stubs=[FMT], timeout=1800)
+H("C05", "mpq", _SP, "thorough", "C05.mpq.9 sparse decoder is total on arbitrary input and never returns more than the expected size",
+  ["c05_sparse_decoder_total_m8"], ["compression::algorithms::sparse::decompress"], "input [u8; 8] with symbolic length, expected size <= 36 symbolic",
+  "8-byte input", stubs=[FMT, BVEC], timeout=1800)
+H("C03", "mpq", _SP, "thorough", "canary", ["c03b_sparse_canary"], _spfn, "vacuity twin", "-", expect="canary", stubs=[FMT, BVEC])
 
 # ------------------------------------------------------------------------------- C10.d sector checksum enforcement
 H("C10", "mpq", _BP, "quick", "C10.d a single-byte change anywhere in a checksummed single-unit file's data or checksum is detected (or the content is unchanged); the intact file verifies",
